@@ -2,7 +2,7 @@ NOT_APPLICABLE = {}
 
 add("C21", "model_checking", "vh",
     "exhaustive enumeration of the varint encoding space against an independent codec",
-    "Every byte string up to 3 (quick) / 4 (thorough) bytes and boundary lattices up to 9 bytes are decoded in strict and lenient mode and compared with a reference varint codec (value, consumed length, acceptance); every value in +-2^21 (quick) / +-2^27 (thorough) plus +-2^k+-d is encoded and round-tripped. A finite space enumerated completely, which a unit test cannot do.",
+    "Every byte string up to 3 (quick) / 4 (thorough) bytes and boundary lattices up to 9 bytes are decoded in strict and lenient mode and compared with a reference varint codec (value, consumed length, acceptance), also through readers that answer every read with 1-2 bytes and writers that accept 1 byte per call; every value in +-2^21 (quick) / +-2^27 (thorough) plus +-2^k+-d is encoded and round-tripped. A finite space enumerated completely, which a unit test cannot do.",
     "Trusts the 60-line reference codec in harness/src/props/c21.rs (written from docs/serde-2026.md); encodings of 5-8 bytes are covered on a boundary lattice, not completely.")
 
 add("C15", "model_checking", "vh",
@@ -17,7 +17,7 @@ add("C16", "model_checking", "vh",
 
 add("C29", "exploration", "vh",
     "exhaustive (tree, limit) enumeration of both limited serializers",
-    "Every tree of two small-scope tree spaces (one back-reference rich) with EVERY limit 0..=len+1 through node_to_bytes_limit and node_to_bytes_backrefs_limit; below the length the error must be exactly OutOfMemory, whatever token is being written, at/above it the unlimited bytes.",
+    "Every tree of two small-scope tree spaces (one back-reference rich) with EVERY limit 0..=len+1 through node_to_bytes_limit and node_to_bytes_backrefs_limit; below the length the error must be exactly OutOfMemory, whatever token is being written, at/above it the unlimited bytes; after every failed call short probe trees must serialize correctly through all four serializers (a failure leaves no state behind).",
     "Differential against the unlimited serializers of the same crate (whose correctness is C15/C17's subject).")
 
 add("C17", "exploration", "vh",
@@ -47,12 +47,12 @@ add("C24", "exploration", "vh",
 
 add("C12", "model_checking", "vh",
     "explicit-state BFS over allocator API histories on the real Allocator with a heap-only reference model in lock-step",
-    "Breadth-first search from Allocator::new(): every operation of a ~60-250 operation alphabet (all substr bounds, concat lists, both checkpoint kinds, value-preserving restore, ghost counters, all integer constructors) is applied to the real allocator in every reached state (states de-duplicated by the complete internal fingerprint from hook H1); after every transition atom_count/pair_count/heap_size must equal a heap-only reference allocator. Depth 3 (full alphabet) + depth 4 (thinned) in quick, 4 + 5 in thorough.",
+    "Breadth-first search from Allocator::new(): every operation of a ~60-250 operation alphabet (all substr bounds, concat lists, both checkpoint kinds, value-preserving restore, ghost counters, all integer constructors) is applied to the real allocator in every reached state (states de-duplicated by the complete internal fingerprint from hook H1); after every transition atom_count/pair_count/heap_size must equal a heap-only reference allocator. Depth 3 (full alphabet) + depth 4 (thinned) in quick, 5 + 5 in thorough (2.6e8 states), plus a search from a pre-populated state with an outstanding transparent checkpoint.",
     "Trusts the 3-counter reference model in allocmc.rs. Histories longer than the depth bound and atoms outside the alphabet are not covered. One classified defect (substr of an in-place atom) is a known finding identified by (parent bytes, start, end).")
 
 add("C13", "model_checking", "vh",
     "explicit-state BFS from pre-loaded allocator states (every distance from each cap, every small heap limit) with an exact failure oracle",
-    "The allocator BFS is started from new_limited(h) for every h in 1..=6|12 and from allocators pre-loaded with ghost atoms/pairs at every distance 0..=2|4 from the 62,500,000 caps (and all caps at once); an operation must fail with the matching error iff the reference model would exceed that cap, a failed call must leave the complete internal state unchanged, and no count may exceed its cap in any reached state.",
+    "The allocator BFS is started from new_limited(h) for every h in 1..=6|12 and next to the sizes of the large alphabet atoms, and from allocators pre-loaded with ghost atoms/pairs at every distance 0..=2|4 from the 62,500,000 caps (and all caps at once); an operation must fail with the matching error iff the reference model would exceed that cap, a failed call must leave the complete internal state unchanged, and no count may exceed its cap in any reached state.",
     "Part (b) of the design (k-th allocation fails inside real programs) is explored by C25/C03's program runs, not here. Known findings: substr of an in-place atom bypasses the heap limit; new_limited(0) is over its limit at construction.")
 
 add("C14", "model_checking", "vh",
@@ -62,8 +62,8 @@ add("C14", "model_checking", "vh",
 
 add("C19", "model_checking", "vh",
     "explicit-state search over add/undo histories of the real incremental Serializer against a hole-filling tree model",
-    "Breadth-first search over histories of Add(fragment, fresh|re-used NodePtr) and Undo(to any saved state) events on the real Serializer, each history replayed on a fresh object: after every undo the bytes/size must equal those recorded before the undone add; add must report completion exactly when the assembled tree has no unfilled sentinel; completed bytes must decode (new, legacy and reference decoder) to the tree assembled by filling sentinel positions in serialization order; byte traces must not depend on the hashing salts (hook H3). Space A (upstream usage: sentinel in tail position) is explored to 4|5 adds / 2 undos / 5|7 events; spaces N, B, C (sentinel in any position, repeated sentinels, re-used non-tail fragments) to 3-4 adds.",
-    "Three known findings (exact witness history lists) concern fragments with content after their sentinel; space A is clean. Fragments outside the 15-fragment alphabet and longer histories are not covered.")
+    "Breadth-first search over histories of Add(fragment, fresh|re-used NodePtr) and Undo(to any saved state) events on the real Serializer, each history replayed on a fresh object: after every undo the bytes/size must equal those recorded before the undone add; add must report completion exactly when the assembled tree has no unfilled sentinel; completed bytes must decode (new, legacy and reference decoder) to the tree assembled by filling sentinel positions in serialization order; byte traces must not depend on the hashing salts (hook H3). Space A (upstream usage: sentinel in tail position) is explored to 4|5 adds / 2 undos / 5|7 events; spaces N, B, C, S (sentinel in any position, repeated sentinels, re-used non-tail fragments, sentinel reached twice through one shared node) to 3-4 adds; a long-list family (every distance 1..160|600 between two occurrences of an atom, split over two adds, with/without an undone add).",
+    "Three known findings (exact witness history lists) concern fragments with content after their sentinel; space A is clean. Fragments outside the 17-fragment alphabet and longer histories are not covered.")
 
 add("C01", "model_checking", "vh",
     "small-scope exhaustive program enumeration: real run_program against a reference interpreter (per-case conformance)",
@@ -97,17 +97,17 @@ add("C11", "exploration", "vh",
 
 add("C31", "exploration", "vh",
     "exhaustive differential exploration of guard programs against the hidden-guard run under both cost models; nesting-depth boundary",
-    "Every P5 guard program under both cost models is run on ChiaDialect and on the extension-hiding dialect: equal result means the guard yielded nil, equal final atom/pair/heap counts mean the guard left the counts as at its entry, equal cost means it consumed exactly its declared cost (not required for grandfathered extensions under NEW_COST_MODEL); guards nested 1,2,3,19,20,21,22 deep with and without LIMIT_SOFTFORK.",
+    "Every guard program of P5, GUARD-ARGS and GUARD-THEN-OP under both cost models and with the keccak-enabling flag alone is run on ChiaDialect and on the extension-hiding dialect: equal result means the guard yielded nil, equal final atom/pair/heap counts mean the guard left the counts as at its entry, equal cost means it consumed exactly its declared cost (not required for grandfathered extensions under NEW_COST_MODEL); guards nested 1,2,3,19,20,21,22 deep with and without LIMIT_SOFTFORK.",
     "Counts at guard entry are observed through the hidden-guard run (whose guard allocates nothing), not by sampling inside the run.")
 
 add("C23", "exploration", "vh",
     "exhaustive small-scope tree enumeration, differential cost of two real evaluations",
-    "For every tree of TREES(6|7, {nil, 01, 32-byte}) and TREES(3|4, atom sizes 0..100000), list / spine / complete-tree families and single atoms up to 1 MiB, under both cost models: run_program cost of (sha256tree (q . X)) must be strictly below the cost of the standard ChiaLisp sha256tree program applied to X, with equal results.",
+    "For every tree of TREES(6|7, {nil, 01, 32-byte}) and TREES(3|4, atom sizes 0..100000), list / spine / complete-tree families and single atoms up to 1 MiB, under both cost models: run_program cost of (sha256tree (q . X)) must be strictly below the cost of the standard ChiaLisp sha256tree program applied to X, with equal results; each native call is also preceded by calls that run out of budget at C/4, C/2, 3C/4 and C-1 (the call after a failure must be unchanged).",
     "The ChiaLisp program text is the one in tools/src/bin/sha256tree-benching.rs; trees beyond the scopes are not covered.")
 
 add("C30", "exploration", "vh",
     "exhaustive differential exploration, RuntimeDialect vs ChiaDialect",
-    "The standard table is reconstructed as every opcode->op_* assignment of ChiaDialect::op whose name f_table::opcode_by_name knows, quote 1, apply 2. Every in-scope program of seven spaces x 7|20 flag sets is run on both dialects under budgets 0, C, C-1; result, cost and error string must be equal (ChiaDialect gets the flags minus ENABLE_GC and DISABLE_OP).",
+    "The standard table is reconstructed as every opcode->op_* assignment of ChiaDialect::op whose name f_table::opcode_by_name knows, quote 1, apply 2. Dialects with two NON-standard tables are built and probed before and after (each must honour its own table). Every in-scope program of seven spaces x 8|20 flag sets is run on both dialects under budgets 0, C, C-1; result, cost and error string must be equal (ChiaDialect gets the flags minus ENABLE_GC and DISABLE_OP).",
     "Scope filter is syntactic and conservative (any mention of 36, 48, 62-65 or a 4-byte secp opcode excludes the program). The 'standard table' is not shipped as a literal by the repository.")
 
 add("C03", "exploration", "vh",
@@ -117,17 +117,17 @@ add("C03", "exploration", "vh",
 
 add("C06", "exploration", "vh",
     "exhaustive differential exploration of four operators, num-bigint vs malachite backend",
-    "div, divmod and mod over every argument list of arity 0..=2|3 (plus improper terminators) and modpow over every (base, exponent, modulus) triple over a 30-50 value integer alphabet (boundary values in canonical, zero-padded and ff-padded form, eight zero bytes before 0x80, 257..2100-byte positive and negative operands, a pair) x 6 flag sets, called through ChiaDialect::op with and without MALACHITE at a high budget, the exact cost and cost-1: identical Ok(cost, result) or identical error string.",
+    "div, divmod and mod over every argument list of arity 0..=2|3 (plus improper terminators) and modpow over every (base, exponent, modulus) triple over a 30-50 value integer alphabet (boundary values in canonical, zero-padded and ff-padded form, eight zero bytes before 0x80, 257..2100-byte positive and negative operands, a pair) x 6 flag sets, called through ChiaDialect::op with and without MALACHITE at a high budget, the exact cost and cost-1: identical Ok(cost, result) or identical error string; plus call histories (two big operands at the same NodePtr across a checkpoint restore; programs with two big-operand calls under ENABLE_GC).",
     "Differential between two backends of the same crate; modpow exponents are capped at 33 bytes for run time.")
 
 add("C09", "model_checking", "vh",
     "exhaustive enumeration of opcodes x argument-size vectors against an independent u128 implementation of the published rule",
-    "Every unassigned 1- and 2-byte opcode, every opcode up to 4|6 bytes over a 10-byte alphabet, 16 core opcodes with every argument vector of arity <=2|3 over shared atoms of 0..1 MiB|64 MiB and a pair, and the overflow corner (every multiplier whose product wraps k times and lands below 2^32) are called through ChiaDialect::op under both cost models, three budgets and strict mode; the outcome must equal an independent implementation of the rule (nil + (multiplier+1)*base, or failure under the six listed conditions).",
+    "Every unassigned 1- and 2-byte opcode, every opcode up to 4|6 bytes over a 10-byte alphabet, 16 core opcodes with every argument vector of arity <=2|3 over shared atoms of 0..1 MiB|64 MiB and a pair, and the overflow corner (every multiplier whose product wraps k times and lands below 2^32) are called through ChiaDialect::op under both cost models, three budgets and strict mode; the outcome must equal an independent implementation of the rule (nil + (multiplier+1)*base, or failure under the six listed conditions); unassigned / not-enabled opcodes are also run by run_program inside extension-0 guards nested in guards of extension 0/1/2 against the reference interpreter.",
     "The reference rule is ~60 lines in props/c09.rs written from the comment block of op_unknown and docs/new-operator-checklist.md. Known finding: the pre-hard-fork model multiplies with wrapping_mul.")
 
 add("C25", "exploration", "vh",
     "exhaustive exploration of programs x flag sets x budgets x allocation-fault points under catch_unwind, in an assertion-enabled build",
-    "Every program of 12 spaces x 5 flag sets (incl. every defined flag bit) x budgets {0,1,C-1,C,u64::MAX}; for the allocation-heavy spaces every heap limit and every atom/pair-cap headroom from 0 up to the first one that reproduces the unconstrained outcome (the k-th allocation fails, all k) with a monotone, peak-free oracle; every opcode called directly with every small argument list (proper and improper, inline and heap atoms); deep structures up to 10^5|10^6 in a child process with an 8 MiB stack. Oracle: no panic / abort / stack overflow, never InternalError, caps reported with the matching error.",
+    "Every program of 15 spaces (incl. every single-argument mutation of a succeeding op-tests vector per operator, byte-level forms of softfork arguments) x 5 flag sets (incl. every defined flag bit) x budgets {0,1,C-1,C,u64::MAX}; for the allocation-heavy spaces every heap limit and every atom/pair-cap headroom from 0 up to the first one that reproduces the unconstrained outcome (the k-th allocation fails, all k) with a monotone, peak-free oracle; every opcode called directly with every small argument list (proper and improper, inline and heap atoms); deep structures up to 10^5|10^6 in a child process with an 8 MiB stack. Oracle: no panic / abort / stack overflow, never InternalError, caps reported with the matching error.",
     "The harness is built with overflow-checks and debug-assertions, so wrap-arounds and debug_assert! failures surface as panics. Programs beyond the scopes are not covered.")
 
 add("C05", "exploration", "vh",
@@ -142,20 +142,20 @@ add("C10", "model_checking", "vh",
 
 add("C26", "exploration", "vh+pyleg",
     "exhaustive conformance of the freshly built extension module against the Rust harness on enumerated cases",
-    "The harness enumerates programs (all opcodes over constants, guards, repository vectors, families) x every single flag bit 0..31, MEMPOOL_MODE, all-ones, pairs of defined bits x budgets {0,1,C,C-1}, malformed serializations, every small tree and every short byte string / back-reference stream / 2026 blob, and records what the Rust core returns (same truncated flags, same allocator limit). The python leg replays every case through run_serialized_chia_program, ser_*/deser_*/deser_auto/serialized_length/deserialize_as_tree and walks every returned LazyNode through .atom/.pair: cost, result tree, or exact error message and error node must be equal.",
+    "The harness enumerates programs (all opcodes over constants, guards, repository vectors, families) x every single flag bit 0..31, MEMPOOL_MODE, all-ones, pairs of defined bits x budgets {0,1,C,C-1}, malformed serializations, every small tree and every short byte string / back-reference stream / 2026 blob, and records what the Rust core returns (same truncated flags, same allocator limit). The python leg replays every case through run_serialized_chia_program, ser_*/deser_*/deser_auto/serialized_length/deserialize_as_tree and walks every returned LazyNode through .atom/.pair: cost, result tree, or exact error message and error node must be equal; every small-integer boundary atom goes through the LazyNode views; the pure-python serde.serialize/deserialize front end is driven with every ordered pair of calls over a call alphabet (the second call must not depend on the first).",
     "The wheel is built as a plain cdylib from /repo's working tree (no maturin) and imported under python 3.11. Both sides run the same clvmr code in different builds, so this check targets the binding layer (flag truncation, allocator limit, error adaptation, LazyNode views, argument plumbing).")
 
 add("C27", "exploration", "pyleg",
     "exhaustive tree x storage-kind enumeration in python",
-    "Every tree of TREES(4|5, {'aaaa','bbbb',''}) wrapped in six CLVMStorage implementations (plain objects, Program.to, Program.from_bytes, LazyNode, a wrapper whose pair accessor builds fresh children on every access, CLVMTree) goes through clvm_tree_to_lazy_node, ser_2026, deser_2026 and an atom/pair walk and must serialize to the source bytes.",
+    "Every tree of TREES(4|5, {'aaaa','bbbb',''}) and every small-integer boundary atom (alone, in a pair, twice in a list) wrapped in twelve CLVMStorage implementations (plain objects with fresh / hash-consed / atom-shared identity, Program.to, Program.from_bytes, LazyNode from both decoders, a wrapper whose pair accessor builds fresh children on every access, CLVMTree with and without cached hashes, also wrapped in Program) goes through clvm_tree_to_lazy_node, ser_2026, deser_2026 and an atom/pair walk and must serialize to the source bytes.",
     "CPython's allocator reuses freed addresses deterministically for these small objects, which is what makes the (now fixed) address-reuse defect reproducible; object addresses themselves cannot be scripted.")
 
 add("C28", "exploration", "pyleg",
     "exhaustive conformance of the pure-python helpers against the Rust core and independent oracles",
-    "sexp_to_bytes and the forced pure-python deserialize_as_tuples fallback on every tree of TREES(4|5,A6); sexp_from_stream on ~33k byte strings (all short strings, every length-prefix class with size bytes over {00,01,ff} up to 7 bytes and short/exact/long bodies) against the Rust classic decoder; int_to_bytes/int_from_bytes on every integer in +-2^12|2^17 and +-2^k+-d (k<=130) against an independent minimal encoder and the Rust interpreter; curry/uncurry/curry_hash/run-equivalence on 20|40 modules x 260 argument lists.",
+    "sexp_to_bytes and the forced pure-python deserialize_as_tuples fallback on every tree of TREES(4|5,A6); sexp_from_stream on ~33k byte strings (all short strings, every length-prefix class with size bytes over {00,01,ff} up to 7 bytes and short/exact/long bodies) against the Rust classic decoder; int_to_bytes/int_from_bytes on every integer in +-2^12|2^17 and +-2^k+-d (k<=130) against an independent minimal encoder and the Rust interpreter; curry/uncurry/curry_hash/run-equivalence and the treehasher helpers (called twice with one caller-owned list) on 20|40 modules x 260 argument lists.",
     "Independent oracles are ~100 lines of python at the top of pyref/pyleg.py (reference classic codec, hashlib tree hash, minimal integer encoder).")
 
 add("C32", "model_checking", "pyleg",
     "exhaustive enumeration of structured argument lists, the operators inside the built wheel against from-scratch reference implementations",
-    "About 8.5k argument lists: sha256 / keccak256 over arity <=3|4 incl. block-boundary lengths and pairs, coinid over id lengths x all amount encodings, secp256k1/r1 verify (opcodes 64/65 and the 4-byte opcodes) over 13 key encodings x 7 digests x 14 signatures, BLS point_add / g1_subtract / g2_add / g2_subtract over every list of arity <=2|3 over a 15-/12-point alphabet (infinity, multiples of G, outside the subgroup, x>=p, flag-bit corruptions, wrong lengths, pair), negate with and without RELAXED_BLS, multiply / pubkey_for_exp over 12 scalars, g1/g2_map over messages x DSTs, pairing identity and bls_verify with signatures produced by the reference; each must give the same bytes / the same accept-reject decision as pyref.",
+    "About 8.5k argument lists: sha256 / keccak256 over arity <=3|4 incl. block-boundary lengths and pairs, coinid over id lengths x all amount encodings, secp256k1/r1 verify (opcodes 64/65 and the 4-byte opcodes) over 13 key encodings x 7 digests x 14 signatures, BLS point_add / g1_subtract / g2_add / g2_subtract over every list of arity <=2|3 over a 15-/12-point alphabet (infinity, multiples of G, outside the subgroup, x>=p, flag-bit corruptions, wrong lengths, pair), negate with and without RELAXED_BLS, multiply / pubkey_for_exp over 12 scalars, g1/g2_map over messages x DSTs, secp digests with 1-16 leading zero bytes verified in full and truncated form, pairing identity and bls_verify with signatures produced by the reference; each must give the same bytes / the same accept-reject decision as pyref.",
     "pyref (pyref/bls.py, h2c.py, c32leg.py) is written from scratch: BLS12-381 tower, optimal-ate pairing, (de)compression with subgroup check, RFC 9380 hash-to-curve, Weierstrass ECDSA, Keccak-f. Curve constants are self-validated (on-curve, r*G = infinity); the 11-/3-isogeny coefficient tables are parsed from the blst C sources in the local cargo registry and pyref must reproduce blspy vectors of the repository at start-up; sha256 is hashlib's. Known finding: secp256k1 rejects high-s signatures.")
